@@ -113,15 +113,20 @@ class CovergroupModel(FieldCompositeModel):
         print("get_inst_coverage: %s" % self.coverage_calc_valid)
         if not self.coverage_calc_valid:
             self.coverage = 0.0
+            # Coverpoints and crosses contribute according to their weight
+            total_weight = 0
             for cp in self.coverpoint_l:
-                self.coverage += cp.get_coverage()
+                self.coverage += cp.get_coverage() * cp.options.weight
+                total_weight += cp.options.weight
             for cp in self.cross_l:
-                self.coverage += cp.get_coverage()
-            
+                weight = 1 if cp.options is None else cp.options.weight
+                self.coverage += cp.get_coverage() * weight
+                total_weight += weight
+                
             if (len(self.coverpoint_l)+len(self.cross_l)) == 0:
                 self.coverage = 100.0 # vacuously covered
-            else:
-                self.coverage /= (len(self.coverpoint_l) + len(self.cross_l))
+            elif total_weight > 0:
+                self.coverage /= total_weight
                 self.coverage = round(self.coverage, 4)
             self.coverage_calc_valid = True
             
